@@ -190,6 +190,12 @@ class C20(Harness):
             g = NF("last")
             out["fit"] = attempt(lambda: g.fit(good, fh=fh), lambda: g.is_fitted)
             out["FH"] = attempt(lambda: FH(fh))
+            # the same repeated step handed over as a pandas index
+            fhi = pd.Index(inp["fh2"])
+            out["FH.index"] = attempt(lambda: FH(fhi))
+            f2 = NF("last").fit(good)
+            out["predict.index"] = attempt(lambda: f2.predict(fhi))
+            out["splitter.index"] = attempt(lambda: list(sp.SlidingWindowSplitter(fh=fhi, window_length=1).split(good)))
             out["splitter"] = attempt(lambda: list(sp.SlidingWindowSplitter(fh=fh, window_length=1).split(good)))
             r = red.make_reduction(Reg(), strategy="direct", window_length=1)
             out["reduction.fit"] = attempt(lambda: r.fit(good, fh=fh), lambda: r.is_fitted)
@@ -269,6 +275,7 @@ class C20(Harness):
             out["make_reduction"] = attempt(lambda: red.make_reduction(Reg(), strategy="iterated"))
             out["make_reduction.scitype"] = attempt(lambda: red.make_reduction(Reg(), scitype="panel"))
             out["evaluate"] = attempt(lambda: ev.evaluate(Member(p=1), sp.SlidingWindowSplitter(fh=1, window_length=1), good, strategy="refresh", scoring=make_score(W)))
+            out["evaluate.single-split"] = attempt(lambda: ev.evaluate(Member(p=1), sp.SingleWindowSplitter(fh=1), good, strategy="refresh", scoring=make_score(W)))
             out["evaluate.cv"] = attempt(lambda: ev.evaluate(Member(p=1), "kfold", good, scoring=make_score(W)))
             out["evaluate.scoring"] = attempt(lambda: ev.evaluate(Member(p=1), sp.SlidingWindowSplitter(fh=1, window_length=1), good, scoring="mape"))
             out["evaluate.start_with_window"] = attempt(lambda: ev.evaluate(Member(p=1), sp.SlidingWindowSplitter(fh=1, window_length=1, start_with_window=False), good, scoring=make_score(W)))
